@@ -441,7 +441,13 @@ func (d *DataRow) GetValueByColumn(col *Column) interface{} {
 			log.Panicf("unsupported column %s (type %s) in table %s", col.Name, col.DataType.String(), d.dataStore.table.name.String())
 		}
 	case RefStore:
-		return d.refs[col.RefColTableName].GetValueByColumn(col.RefCol)
+		ref := d.refs[col.RefColTableName]
+		if ref == nil {
+			// no referenced object, ex.: the service of a host downtime
+			return col.GetEmptyValue()
+		}
+
+		return ref.GetValueByColumn(col.RefCol)
 	case VirtualStore:
 		return d.getVirtualRowValue(col)
 	}
